@@ -368,8 +368,12 @@ fn compare_pair(ctx: &Ctx, pair: &Value, reply: &Value) {
             if fault_kind(&a).is_some() || fault_kind(&b).is_some() {
                 continue;
             }
+            // spans and everything derived from them are claimed for strict patterns only (T16 does the same):
+            // outside the strict fragment the two spellings need only agree on is_match
+            let both_strict = pair["a"]["strict"].as_bool().unwrap_or(false) && pair["b"]["strict"].as_bool().unwrap_or(false);
             let relevant = match (same, j) {
                 (_, 0) => true,
+                (_, _) if !both_strict => false,
                 ("all", _) => true,
                 ("spans", 1) | ("spans", 3) => true,
                 _ => false,
